@@ -120,6 +120,7 @@ def conjureParents {σ : Type} (ops : FsOps σ) (myUid myGid : Nat) (filt : Unpa
   | [], st => .ok st
   | p :: ps, st =>
     if st.dirs.contains p then conjureParents ops myUid myGid filt ps st
+    else if st.pre.has { defaultDirMeta p with kind := .file } then .err .wareCorrupt   -- a child of something that is no directory
     else
       let conj := defaultDirMeta p
       let pre := st.pre.add conj []
@@ -134,6 +135,10 @@ def conjureParents {σ : Type} (ops : FsOps σ) (myUid myGid : Nat) (filt : Unpa
       | some _ => .err .inoperablePath
       | none => conjureParents ops myUid myGid filt ps { fs := fs', pre := pre, post := post, dirs := p :: st.dirs }
 
+/-- the same name with the other record key: a directory's twin is "the name as a non-directory" and vice versa
+    (`MemoryBucket` keys directories as `name/` and everything else as `name`) -/
+def twinOf (m : Meta) : Meta := { m with kind := if m.kind = .dir then .file else .dir }
+
 /-- one iteration of the entry loop of `unpackTar` -/
 def unpackEntry {σ : Type} (ops : FsOps σ) (myUid myGid : Nat) (filt : UnpackFilter) (h : TarHdr)
     (st : UnpackSt σ) : Outcome (UnpackSt σ) :=
@@ -144,6 +149,7 @@ def unpackEntry {σ : Type} (ops : FsOps σ) (myUid myGid : Nat) (filt : UnpackF
   | .meta_ fmeta =>
     if hasPrefix fmeta.name.str [dot, dot] then .err .wareCorrupt else
     if fmeta.kind ≠ .dir ∧ st.pre.has fmeta then .err .wareCorrupt else      -- repeated entry
+    if st.pre.has (twinOf fmeta) then .err .wareCorrupt else                  -- a directory and something else under one name
     match conjureParents ops myUid myGid filt fmeta.name.splitParent st with
     | .panic w => .panic w
     | .err c => .err c
